@@ -5,7 +5,7 @@
    (L1 client only when the cell is 0, then the L1-info store), the assignment to the cell, IsGERInjected, InjectGER.
    Each dependency may fail (finite budget).  The environment actions are the L1 chain (Mine with info-tree leaves,
    Finalize, Reorg above the finalized block), the L1-info syncer (Sync; it may be behind or ahead of the finalized
-   block) and another party putting a root on L2 (Ext).
+   block; SyncFail: a block whose COMMIT fails and is retried later) and another party putting a root on L2 (Ext).
 
    `target` is the loop's state cell `blockNumToFetch`.  What happens to it when getLastFinalizedGER fails is the
    constant Rule (the function returns blockNum = the block it asked the store for, 0 if the L1 client failed):
@@ -53,12 +53,14 @@ VARIABLES H,           \* L1 head
           leaves,      \* L1 info tree: sequence of [blk, g] in tree order (blk non-decreasing, g = GER value)
           l2,          \* GERs present on L2
           target,      \* the cell blockNumToFetch
+          dirty,       \* block whose ProcessBlock failed at COMMIT and has not been retried / reorged yet (0 = none):
+                       \* nothing of it is stored, so the code as written behaves as if it had never been tried
           fails, reorgs, exts,     \* budgets used
           last,        \* ghost: outcome of the last step if it was a Tick (what the invariants talk about)
           hist         \* behaviour history for export (hidden by VIEW; constant unless Record)
 
-vars == <<H, F, S, leaves, l2, target, fails, reorgs, exts, last, hist>>
-view == <<H, F, S, leaves, l2, target, fails, reorgs, exts, last>>
+vars == <<H, F, S, leaves, l2, target, dirty, fails, reorgs, exts, last, hist>>
+view == <<H, F, S, leaves, l2, target, dirty, fails, reorgs, exts, last>>
 
 NoTick == [res |-> "none", t |-> 0, g |-> 0, was |-> FALSE]
 
@@ -92,7 +94,7 @@ Commit(n, lst, ev) ==
 
 -----------------------------------------------------------------------------
 Init ==
-  /\ H = 0 /\ F = 0 /\ S = 0 /\ leaves = <<>> /\ l2 = {} /\ target = 0
+  /\ H = 0 /\ F = 0 /\ S = 0 /\ leaves = <<>> /\ l2 = {} /\ target = 0 /\ dirty = 0
   /\ fails = 0 /\ reorgs = 0 /\ exts = 0 /\ last = NoTick /\ hist = <<>>
 
 (* a new L1 block carrying 0..2 info-tree leaves (leaves only ever appear in new blocks, above the finalized one) *)
@@ -105,17 +107,28 @@ Mine(ls) ==
   /\ Commit([Cur EXCEPT !.H = H + 1,
                         !.leaves = leaves \o [i \in 1..Len(ls) |-> [blk |-> H + 1, g |-> ls[i]]]],
             NoTick, [a |-> "mine", leaves |-> ls])
-  /\ UNCHANGED <<fails, reorgs, exts>>
+  /\ UNCHANGED <<dirty, fails, reorgs, exts>>
 
 Finalize(to) ==
   /\ F < to /\ to <= H
   /\ Commit([Cur EXCEPT !.F = to], NoTick, [a |-> "fin", to |-> to])
-  /\ UNCHANGED <<fails, reorgs, exts>>
+  /\ UNCHANGED <<dirty, fails, reorgs, exts>>
 
 Sync(to) ==
   /\ S < to /\ to <= H
   /\ Commit([Cur EXCEPT !.S = to], NoTick, [a |-> "sync", to |-> to])
+  /\ dirty' = 0
   /\ UNCHANGED <<fails, reorgs, exts>>
+
+(* the syncer processes S+1..to, and the COMMIT of ProcessBlock(to) fails (transient DB error): the blocks before `to`
+   are stored, nothing of block `to` is; a later Sync retries it.  Counts as one of the dependency failures.
+   (`dirty` is kept only in the bounded shape: it exists to make "a commit just failed for this block" a state of its
+   own, so that the exported edge cover continues with ticks from there.) *)
+SyncFail(to) ==
+  /\ S < to /\ to <= H /\ fails < MaxFail
+  /\ Commit([Cur EXCEPT !.S = to - 1], NoTick, [a |-> "sync", to |-> to, failcommit |-> TRUE])
+  /\ dirty' = IF Treadmill THEN 0 ELSE to
+  /\ fails' = fails + 1 /\ UNCHANGED <<reorgs, exts>>
 
 (* L1 reorg of non-final blocks; the syncer follows at once *)
 Reorg(from) ==
@@ -123,13 +136,14 @@ Reorg(from) ==
   /\ Commit([Cur EXCEPT !.H = from - 1, !.S = IF S < from THEN S ELSE from - 1,
                         !.leaves = SelectSeq(leaves, LAMBDA x : x.blk < from)],
             NoTick, [a |-> "reorg", from |-> from])
+  /\ dirty' = 0
   /\ reorgs' = reorgs + 1 /\ UNCHANGED <<fails, exts>>
 
 (* somebody else puts a root on L2 *)
 Ext(g) ==
   /\ exts < MaxExt /\ g \in GersOf(leaves) /\ g \notin l2
   /\ Commit([Cur EXCEPT !.l2 = l2 \cup {g}], NoTick, [a |-> "ext", g |-> g])
-  /\ exts' = exts + 1 /\ UNCHANGED <<fails, reorgs>>
+  /\ exts' = exts + 1 /\ UNCHANGED <<dirty, fails, reorgs>>
 
 -----------------------------------------------------------------------------
 (* processLatestGER *)
@@ -146,7 +160,7 @@ TickOut(r, cell, newl2, t, g, f) ==
             [res |-> r, t |-> t, g |-> g, was |-> g \in l2],
             [a |-> "tick", fail |-> f, res |-> r, cell |-> cell])
   /\ fails' = IF f = "none" THEN fails ELSE fails + 1
-  /\ UNCHANGED <<reorgs, exts>>
+  /\ UNCHANGED <<dirty, reorgs, exts>>
 
 Tick ==
   LET t   == IF target = 0 THEN F ELSE target                   \* getLastFinalizedGER: sample only when the cell is 0
@@ -165,10 +179,11 @@ Tick ==
   \/ /\ ans = "leaf" /\ g \notin l2           /\ TickOut("inject", 0, l2 \cup {g}, t, g, "none")
 
 SyncStep     == \E to \in 1..MaxBlock : Sync(to)
+SyncFailStep == \E to \in 1..MaxBlock : SyncFail(to)
 FinalizeStep == \E to \in 1..MaxBlock : Finalize(to)
 Next ==
   \/ \E ls \in LeafLists : Mine(ls)
-  \/ FinalizeStep \/ SyncStep
+  \/ FinalizeStep \/ SyncStep \/ SyncFailStep
   \/ \E from \in 1..MaxBlock : Reorg(from)
   \/ \E g \in Gers : Ext(g)
   \/ Tick
@@ -181,6 +196,7 @@ Spec == Init /\ [][Next]_vars
 TypeOK == /\ F <= H /\ S <= H /\ target <= F
           /\ \A i \in 1..(Len(leaves) - 1) : leaves[i].blk <= leaves[i + 1].blk
           /\ l2 \subseteq Gers
+          /\ dirty # 0 => (dirty = S + 1 /\ dirty <= H)
 
 (* an InjectGER call carries the latest root at/below a block that was final when it was sampled, and that root
    was not on L2 *)
